@@ -1,6 +1,82 @@
-/-! `pmodel wrapper`: line-protocol driver (stub — replaced by the owner of this model). -/
+import PhreeqcVerif.Model.Util
+import PhreeqcVerif.Model.Wrapper
+/-! `pmodel wrapper`: op sequences on the model of the IPhreeqc object (accumulate buffer, the three run entry points,
+LoadDatabase/UnLoadDatabase, ListComponents). The engine is an oracle: a run op may carry `fail <k> <code>` = "simulation k of
+this call ends with input_error = code" (taken from what the real engine did); everything else is predicted.
+ops (hex operands, "!" = file that cannot be opened):
+  new | load | unload | comp | acc <hex> | clearacc | getacc | run <hex> [fail k c] | runfile <hex|!> [fail k c] | runacc [fail k c]
+after every op one line:
+  W rc=<n|-> sim=<n> first=<0|1> clr=<0|1> upd=<0|1> db=<0|1> errrep=<0|1> errlines=<0|1> nsims=<n|-> acc=<hex> -/
 namespace Driver.Wrapper
+open PhreeqcVerif PhreeqcVerif.Util PhreeqcVerif.LineReader PhreeqcVerif.Wrapper
 
-def run : IO Unit := IO.eprintln "pmodel wrapper: not implemented"
+def bytesOf (h : String) : Option Bytes :=
+  if h = "-" then some [] else (unhexBytes h).map (·.toList)
+
+def hexOf (b : Bytes) : String := if b.isEmpty then "-" else hexBytes (ByteArray.mk b.toArray)
+
+/-- engine oracle: simulation `k` of the call fails with `code` (k = 0: none fails) -/
+def oracle (k code : Nat) : Engine Unit where
+  simStep cl _ _ := if cl.simulation == k && k != 0 then ⟨(), [], code, 1, 0⟩ else ⟨(), [], 0, 0, 0⟩
+  components _ := []
+  dump _ := ""
+  fresh := ()
+  empty := ()
+
+def b2s (b : Bool) : String := if b then "1" else "0"
+
+def showW (w : W Unit) (rc : Option Nat) (nsims : Option Nat) : String :=
+  let rcs := match rc with | some n => toString n | none => "-"
+  let ns := match nsims with | some n => toString n | none => "-"
+  s!"W rc={rcs} sim={w.simulation} first={b2s w.firstRead} clr={b2s w.clearAccumulated} upd={b2s w.updateComponents} db={b2s w.dbLoaded} errrep={b2s (w.errReporter != 0)} errlines={b2s (w.errorLines != 0)} nsims={ns} acc={hexOf w.stringInput}"
+
+def failOf : List String → Nat × Nat
+  | ["fail", k, c] => (k.toNat?.getD 0, c.toNat?.getD 1)
+  | _ => (0, 0)
+
+def runOp (w : W Unit) (src : Source) (rest : List String) : W Unit × String :=
+  let (k, c) := failOf rest
+  let text : Option Bytes := match src with
+    | .str s => some (cstr s) | .file f => f | .accumulated => some w.stringInput
+  let r := w.run (oracle k c) src
+  (r.1, showW r.1 (some r.2) (text.map fun t => (simulations t).length))
+
+def feed (w : W Unit) (line : String) : W Unit × Option String :=
+  match words line with
+  | ["new"] => let w : W Unit := { engine := () }; (w, some (showW w none none))
+  | ["load"] => let r := w.load (oracle 0 0) true; (r.1, some (showW r.1 (some r.2) none))
+  | ["unload"] => let r := w.load (oracle 0 0) false; (r.1, some (showW r.1 (some r.2) none))
+  | ["comp"] => let r := w.listComponents (oracle 0 0); (r.1, some (showW r.1 none none))
+  | ["acc", h] =>
+    match bytesOf h with
+    | some l => let w := w.accumulateLine l; (w, some (showW w none none))
+    | none => (w, some "bad-hex")
+  | ["clearacc"] => let w := w.clearAccumulatedLines; (w, some (showW w none none))
+  | ["getacc"] => (w, some (showW w none none))
+  | "run" :: h :: rest =>
+    match bytesOf h with
+    | some s => let (w, o) := runOp w (.str s) rest; (w, some o)
+    | none => (w, some "bad-hex")
+  | "runfile" :: h :: rest =>
+    if h = "!" then let (w, o) := runOp w (.file none) rest; (w, some o)
+    else match bytesOf h with
+      | some s => let (w, o) := runOp w (.file (some s)) rest; (w, some o)
+      | none => (w, some "bad-hex")
+  | "runacc" :: rest => let (w, o) := runOp w .accumulated rest; (w, some o)
+  | [] => (w, none)
+  | _ => (w, some "bad-op")
+
+def run : IO Unit := do
+  let stdin ← IO.getStdin
+  let stdout ← IO.getStdout
+  let lines ← readLines stdin
+  let mut w : W Unit := { engine := () }
+  for l in lines do
+    let (w', o) := feed w l
+    w := w'
+    match o with
+    | some s => stdout.putStrLn s
+    | none => pure ()
+  stdout.flush
 
 end Driver.Wrapper
